@@ -5,6 +5,7 @@ CONSTANTS
   DropLastBitmap = FALSE
   KeepGroupByScratch = FALSE
   ClobberOnFlush = FALSE
+  BigByFold = TRUE
 INVARIANTS EmitSetup EmitHist AnswersCorrect
 PROPERTIES QueryObjectsStable
 CHECK_DEADLOCK FALSE
